@@ -126,6 +126,7 @@ func (ex *Exec) execFrom(fr *Frame, b *ssa.BasicBlock, start int, st *State, k r
 			}
 			if fr.top {
 				st.retSite = fmt.Sprintf("b%d", b.Index)
+				fr.lastRet = x
 			}
 			k(st, res)
 			return
@@ -512,6 +513,9 @@ func (ex *Exec) evalUnOp(fr *Frame, st *State, x *ssa.UnOp) Value {
 		v := ex.load(st, loc)
 		v.T = x.Type()
 		ex.assumeLoaded(st, v)
+		if loc.Kind == "elem" {
+			ex.applyEach(st, loc, v)
+		}
 		if len(v.L) == 1 {
 			if c, ok := st.Closures[v.L[0].String()]; ok {
 				v.Clo = c
@@ -884,5 +888,38 @@ func (ex *Exec) mapStore(st *State, m Value, k *Term, v Value) {
 		all := st.heapArrS(n, as)
 		st.Heap[n] = Store(all, m.L[0], Store(Select(all, m.L[0]), k, v.L[i]))
 		st.Dirty["H:"+n] = true
+	}
+}
+
+// applyEach instantiates the slice element invariants known on this path at a loaded element.
+func (ex *Exec) applyEach(st *State, loc *Loc, v Value) {
+	k := typeKey(loc.T)
+	for _, f := range st.Each {
+		if f.ElemKey != k {
+			continue
+		}
+		in := And(Eq(loc.Obj, f.Arr), Le(f.Off, loc.Idx), Lt(loc.Idx, Add(f.Off, f.Len)))
+		if in.IsFalse() {
+			continue
+		}
+		env := f.Env.with(map[string]Value{f.Var: v})
+		env.cur = st
+		env.live = st
+		var p *Term
+		func() {
+			defer func() {
+				if r := recover(); r != nil {
+					if _, ok := r.(specErr); ok {
+						p = nil
+						return
+					}
+					panic(r)
+				}
+			}()
+			p = env.boolTerm(f.Pred)
+		}()
+		if p != nil {
+			st.assume(Implies(And(f.Guard, in), p))
+		}
 	}
 }
